@@ -8,6 +8,7 @@ from .c12 import params_of, _cmp
 
 PROP = "C15"
 MONITORS = ("WF",)
+HOSTILE = ('special',)
 ANCHORS = [("utils/linalg.py", "invert_diagonal"), ("measure.py", "GaussianDiagMeasure.invert_lambda"),
            ("pdf.py", "GaussianDiagPDF.__post_init__"),
            ("conditional.py", "ConditionalGaussianDiagPDF.__post_init__"),
@@ -307,7 +308,8 @@ def run_cond_pair(cell, rec, seed):
                  lambda: pick(g.affine_marginal_transformation(p), ("mu", "Sigma")),
                  dict(info, vague=vague), "cond:" + pair, relative=True)
             continue
-        p, tp = build.mk_pdf(rng, Rx, Dx, kappa=float(rng.choice(gen.KAPPAS[:4])))
+        p, tp = build.mk_pdf(rng, Rx, Dx, kappa=float(rng.choice(gen.KAPPAS[:4])),
+                             diag=bool(rng.random() < 0.35))
         x = J(gen.points(rng, 3, tp.mu, tp.Sigma))
         N = Rc if Rc > 1 else 4
         y = J(gen.vec(rng, N, Dy))
